@@ -1,5 +1,6 @@
 import NrDaemon.Lemmas.Proc
 import NrDaemon.Gen.Worker
+import NrDaemon.Gen.Skeleton
 /-!
   C11 — shutdown flushes every application and terminates.
 -/
@@ -57,3 +58,14 @@ theorem C11_shutdown_order_tied :
     Gen.Worker.onSignal = ["cancel", "log.Infof", "p.CleanExit", "log.Infof"] ∧
     Gen.Worker.onCtxDone = ["list.Close"] ∧
     Gen.Worker.notified = ["syscall.SIGTERM", "syscall.SIGINT"] := by decide
+
+/-- `Processor.CleanExit` today: stop the loop (a rendezvous with `Run`), then one blocking all-at-once harvest per held run -/
+def reviewedCleanExit : List String := [
+  "p.quitChan <- <*ast.CompositeLit>",
+  "for range p.harvests {",
+  "p.doHarvest(…)",
+  "}"
+]
+
+/-- **C11 (tie: the flush the model describes is the code's).** -/
+theorem C11_cleanexit_source_tied : Gen.Skeleton.cleanExit = reviewedCleanExit := rfl
